@@ -37,6 +37,8 @@ D = {
     '.configure': ms.pattern(C0, O0, _name('configure', lambda n: n == 'configure'), A0),
     'B:': lambda m: None if m.orphan else m.conn == 'B',
     'B: .commit': ms.pattern(('B:', lambda c: c == 'B'), O0, _name('commit', lambda n: n == 'commit'), A0),
+    'A: .commit': ms.pattern(('A:', lambda c: c == 'A'), O0, _name('commit', lambda n: n == 'commit'), A0),
+    'B: wl_surface': ms.bare(('B:', lambda c: c == 'B'), _obj('wl_surface', ms.o_type('wl_surface'))),
     '(x=0)': ms.pattern(C0, O0, N0, ('(x=0)', ms.argl([ms.a_and(ms.a_named('x'), ms.a_int(0))]))),
     '[wl_surface, wl_seat].[commit, capabilities]': ms.pattern(
         C0, _obj('', lambda o: o[0] in ('wl_surface', 'wl_seat')), _name('', lambda n: n in ('commit', 'capabilities')), A0),
@@ -66,6 +68,8 @@ COMMANDS = [
     ('("wl_seat")', ['("wl_seat")'], []),
     ('3é', 'BAD', None),
     ('! ("wl_seat")', [], ['("wl_seat")']),
+    ('A: .commit', ['A: .commit'], []),
+    ('B: .commit', ['B: .commit'], []),
 ]
 INITIAL = ['*', '!', 'wl_pointer']
 
@@ -138,7 +142,44 @@ def printed_matcher(lines, prefix):
     return None
 
 
+def evaluate_recorded(case):
+    """The messages are recorded first; the commands follow (as at the prompt of file mode, or in GDB while the program
+    is halted); `list` without a matcher is asked after the first command and after the last one only."""
+    V = []
+    try:
+        lines, views = universe()
+        s = sut.Session()
+        for l in lines:
+            s.feed_line(l)
+        canon = [x for x in s.cmd('list *')[0] if outparse.classify(x)[0] == 'message']
+        reff = RefAcc('*')
+        seq = [COMMANDS[i] for i in case['seq']]
+        for n, cmd in enumerate(seq):
+            reff.step(cmd)
+            s.cmd('filter ' + cmd[0])
+            if n == 0 or n == len(seq) - 1:
+                listed = {x for x in s.cmd('list')[0] if outparse.classify(x)[0] == 'message'}
+                ref_now = reff if n == len(seq) - 1 else None
+                if ref_now is None:
+                    first = RefAcc('*')
+                    first.step(seq[0])
+                    ref_now = first
+                for v, line in zip(views, canon):
+                    want = ref_now.selects(v)
+                    if want is not None and want != (line in listed):
+                        V.append(Violation('accumulate.list_of_recorded', case, {'after_command': n, 'message': v.line, 'expected_listed': want,
+                                                                                'reference': ref_now.key()}))
+                        break
+            if V:
+                break
+    except Exception:
+        return Eval([sut.exc_violation(case)])
+    return Eval(V, outcome=[reff.key(), 'recorded'], nontrivial=len(case['seq']) >= 3, transitions=len(case['seq']) + 2)
+
+
 def evaluate(case):
+    if case.get('recorded_first'):
+        return evaluate_recorded(case)
     V = []
     try:
         lines, views = universe()
@@ -243,6 +284,10 @@ def gen_cases(tier):
         for seq in itertools.product(range(len(COMMANDS)), repeat=n):
             if len(set(seq)) > 1:
                 yield {'init': '*', 'seq': list(seq), 'rotate': True}
+    well = [i for i, c in enumerate(COMMANDS) if isinstance(c[1], list)]
+    for n in (1, 3):
+        for seq in itertools.product(well, repeat=n):
+            yield {'init': '*', 'seq': list(seq), 'recorded_first': True}
 
 
 def run(run, tier, seed):
